@@ -206,11 +206,15 @@ Definition join (ls : list str) : option joined :=
   end.
 
 (* ---- "equal modulo inter-token blanks" for directives ------------------------------------- *)
-Definition dir_delim (c : ascii) : bool :=
-  Ascii.eqb c (ascii_of_N 44) || Ascii.eqb c (ascii_of_N 41) || Ascii.eqb c (ascii_of_N 61).  (* , ) = *)
+(* word characters: ASCII letters, digits, underscore; every other non-blank character is a
+   delimiter next to which blanks are insignificant *)
+Definition is_word (c : ascii) : bool :=
+  let n := N_of_ascii c in
+  ((N.leb 48 n && N.leb n 57) || (N.leb 65 n && N.leb n 90) || (N.leb 97 n && N.leb n 122) || N.eqb n 95)%bool.
+Definition dir_delim (c : ascii) : bool := negb (is_ws c) && negb (is_word c).
 Definition soft (c : ascii) : bool := is_ws c || dir_delim c.
 
-(* drop every white-space character that follows white space or one of `,` `)` `=` *)
+(* drop every white-space character that follows white space or a delimiter (and leading blanks) *)
 Fixpoint squeeze (prev_soft : bool) (s : str) : str :=
   match s with
   | [] => []
@@ -218,13 +222,16 @@ Fixpoint squeeze (prev_soft : bool) (s : str) : str :=
               else c :: squeeze (dir_delim c) r
   end.
 
+(* canonical form: additionally drop white space that precedes a delimiter, and trailing blanks *)
+Definition canon (s : str) : str := rev (squeeze true (rev (squeeze true s))).
+
 Definition kind_eqb (a b : kind) : bool :=
   match a, b with KStmt, KStmt | KCond, KCond | KOmp, KOmp | KAcc, KAcc => true | _, _ => false end.
 Definition is_dir (k : kind) : bool := match k with KOmp | KAcc => true | _ => false end.
 
 Definition item_equiv (a b : kind * str) : bool :=
   kind_eqb (fst a) (fst b) &&
-  (if is_dir (fst a) then str_eqb (squeeze true (snd a)) (squeeze true (snd b)) else str_eqb (snd a) (snd b)).
+  (if is_dir (fst a) then str_eqb (canon (snd a)) (canon (snd b)) else str_eqb (snd a) (snd b)).
 
 Fixpoint list_eqb {A} (e : A -> A -> bool) (a b : list A) : bool :=
   match a, b with
@@ -233,7 +240,7 @@ Fixpoint list_eqb {A} (e : A -> A -> bool) (a b : list A) : bool :=
   | _, _ => false
   end.
 
-(* statements and comments exactly, directives modulo inter-token blanks *)
+(* statements and comments exactly, directives modulo blanks next to blanks or delimiters *)
 Definition jequiv (a b : joined) : bool :=
   list_eqb item_equiv (fst a) (fst b) && list_eqb str_eqb (snd a) (snd b).
 
